@@ -704,3 +704,100 @@ pub fn run_part(scale: &str, part: &str, rep: &mut Report) {
         }
     }
 }
+
+// ---------------------------------------------------------------- isolated (sub-process) exploration
+
+/// Run cases [0, total) in worker sub-processes (`mc <ID> --part worker:<a>:<e>`), which must print
+/// `CASE <idx>` before each case and `REPORT-JSON <report>` at the end. A worker that dies is
+/// attributed to the last announced case (`on_death(idx, hang, status)` builds the violation) and the
+/// range is resumed after it. Returns None on a machinery failure.
+pub fn isolated_explore(total: usize, chunk: usize, on_death: &(dyn Fn(usize, bool, String) -> Violation + Sync)) -> Option<Report> {
+    use std::io::{BufRead, BufReader};
+    use std::process::{Command, Stdio};
+    let queue: Mutex<Vec<(usize, usize)>> = Mutex::new((0..total).step_by(chunk.max(1)).map(|s| (s, (s + chunk.max(1)).min(total))).rev().collect());
+    let merged: Mutex<Report> = Mutex::new(Report::new());
+    let fail = AtomicBool::new(false);
+    let exe = std::env::current_exe().expect("exe");
+    let c = ctx();
+    std::thread::scope(|s| {
+        for _ in 0..c.threads.max(1) {
+            s.spawn(|| {
+                loop {
+                    let Some((mut a, e)) = queue.lock().unwrap().pop() else { break };
+                    while a < e {
+                        let child = Command::new(&exe)
+                            .arg(&c.property)
+                            .arg("--tier")
+                            .arg(&c.tier)
+                            .arg("--part")
+                            .arg(format!("worker:{a}:{e}"))
+                            .env("VERIF_SEED", c.seed.to_string())
+                            .env("VERIF_THREADS", "1")
+                            .stdout(Stdio::piped())
+                            .stderr(Stdio::null())
+                            .spawn();
+                        let mut child = match child {
+                            Ok(ch) => ch,
+                            Err(err) => {
+                                eprintln!("machinery: cannot spawn worker: {err}");
+                                fail.store(true, Ordering::SeqCst);
+                                return;
+                            }
+                        };
+                        let mut last_case: Option<usize> = None;
+                        let mut got_report = false;
+                        let mut hang = false;
+                        let rd = BufReader::new(child.stdout.take().unwrap());
+                        for line in rd.lines().map_while(Result::ok) {
+                            if let Some(n) = line.strip_prefix("CASE ") {
+                                last_case = n.trim().parse().ok();
+                            } else if let Some(j) = line.strip_prefix("REPORT-JSON ") {
+                                if let Ok(v) = serde_json::from_str::<Value>(j) {
+                                    merged.lock().unwrap().merge(Report::from_json(&v));
+                                    got_report = true;
+                                }
+                            } else if line.starts_with("WORKER-HANG") {
+                                hang = true;
+                            }
+                        }
+                        let status = child.wait();
+                        if got_report {
+                            break;
+                        }
+                        let Some(idx) = last_case else {
+                            eprintln!("machinery: worker for {a}..{e} died before its first case ({status:?})");
+                            fail.store(true, Ordering::SeqCst);
+                            return;
+                        };
+                        let mut r = Report::new();
+                        r.evaluations += 1;
+                        r.violate(on_death(idx, hang, format!("{:?}", status.map(|s| s.to_string()))));
+                        merged.lock().unwrap().merge(r);
+                        a = idx + 1;
+                    }
+                }
+            });
+        }
+    });
+    if fail.load(Ordering::SeqCst) {
+        return None;
+    }
+    Some(merged.into_inner().unwrap())
+}
+
+/// Worker side: announce the case about to run.
+pub fn announce_case(idx: usize) {
+    use std::io::Write;
+    let out = std::io::stdout();
+    let mut o = out.lock();
+    let _ = writeln!(o, "CASE {idx}");
+    let _ = o.flush();
+    watch_sub(idx as u64);
+}
+
+/// Parse "worker:<a>:<e>".
+pub fn worker_range(part: &str) -> Option<(usize, usize)> {
+    let spec = part.strip_prefix("worker:")?;
+    let mut it = spec.split(':');
+    Some((it.next()?.parse().ok()?, it.next()?.parse().ok()?))
+}
